@@ -132,6 +132,8 @@ let out = Buffer.create 65536
 
 let pr fmt = Printf.bprintf out fmt
 
+let ghost = ref false
+
 let print_event (e : event) : unit =
   match e with
   | ERd None -> pr "R -\n"
@@ -160,6 +162,7 @@ let print_event (e : event) : unit =
     (match c with
      | ITrigger (ci, t) -> pr "I t %d %d = %d\n" (int_of_nat ci) (int_of_ctype t) (int_of_z r)
      | IHoldExit s -> pr "I x %d = %d\n" (int_of_z s) (int_of_z r))
+  | EPop (ci, t) -> if !ghost then pr "# pop %d %d\n" (int_of_nat ci) (int_of_ctype t)
   | ERet (o, r) ->
     let code = match o with
       | OService -> "s" | OTrigger _ -> "t" | OHoldExit _ -> "x" | OIsBusy -> "b" | OIsHold -> "h"
@@ -167,7 +170,6 @@ let print_event (e : event) : unit =
       | OSetCmdDisable _ -> "dc" | OSetGroupDisable _ -> "dg" in
     pr "= %s %d\n" code (int_of_z r)
 
-let ghost = ref false
 
 (* run one operation; print new events and memory changes; return the status of the op *)
 let exec (d : desc) (w : sworld ref) (o : sop) : int =
